@@ -39,6 +39,18 @@ Theorem C02_grammar_sound : forall t,
 Proof. exact grammar_sound. Qed.
 Print Assumptions C02_grammar_sound.
 
+(* and the GeometryTree itself does not depend on the derivation: two parse trees of the same geometry text
+   build the same tree, so SLY's conflict resolution (14 shift/reduce conflicts in CellParser) cannot change
+   what is read *)
+Theorem C02_grammar_unambiguous : forall t1 t2,
+  pwf cell_productions t1 = true -> proot t1 = "geometry_expr"%string ->
+  uses_shortcut t1 = false -> hash_neg (pyield t1) = false ->
+  pwf cell_productions t2 = true -> proot t2 = "geometry_expr"%string ->
+  uses_shortcut t2 = false -> hash_neg (pyield t2) = false ->
+  strip (pyield t1) = strip (pyield t2) -> pact t1 = pact t2.
+Proof. exact grammar_unambiguous. Qed.
+Print Assumptions C02_grammar_unambiguous.
+
 (* the hypotheses are satisfiable: "( 1 : -2 ) 3 #5 #(4)" with its blanks *)
 Example C02_grammar_sound_nonvacuous :
   pwf cell_productions ex_ptree = true /\ proot ex_ptree = "geometry_expr"%string /\
